@@ -29,6 +29,7 @@ import (
 	"runtime/debug"
 	"strings"
 	"time"
+	"unicode/utf8"
 
 	"verifharness/vh"
 
@@ -474,6 +475,10 @@ func encStream(c *ctx, n int) {
 		O := randEOpts(r)
 		g := GenOpts{MaxDepth: r.PickInt(0, 1, 2, 3), Times: true, Tags: true, F32: true, BigLens: true, SafeKeys: true, SubSecond: true}
 		it := RandItem(r, g, 0)
+		if i%5 == 3 { // multi-byte UTF-8 text, characters at every offset mod 4 (F10-4: chunks cut at rune starts)
+			it = multibyteItem(r, i/5)
+			O.Indef = i%10 != 8
+		}
 		if i%40 == 7 { // one long string now and then: the 65535/65536 head boundary
 			it = &Item{K: KStr, S: randStrBytes(r, r.PickInt(65535, 65536), true)}
 		}
@@ -497,8 +502,10 @@ func encStream(c *ctx, n int) {
 			c.sum.ModelCases++
 		}
 		// oracle 1: an RFC 8949 decoder reads exactly one item carrying the same data
-		got, used, ok := RefDecode(out)
+		got, used, ok, chunksOK := RefDecodeChunks(out)
 		switch {
+		case ok && !chunksOK && utf8Item(it):
+			c.sum.FailC("enc", "out:text-chunk-not-utf8:"+kindName(it), "a chunk of an indefinite-length text string is not valid UTF-8 (RFC 8949 3.2.3)", cj)
 		case !ok:
 			c.sum.FailC("enc", "out:not-well-formed:"+kindName(it), "library output is not a well-formed RFC 8949 item", cj)
 		case used != len(out):
@@ -555,6 +562,50 @@ func hasSubUS(it *Item) bool {
 		return hasSubUS(it.V)
 	}
 	return false
+}
+
+var runes = []string{"a", "\u00e9", "\u20ac", "\U0001F600", "z", "\u00df", "\u4e2d"}
+
+// multibyteItem: text whose multi-byte characters sit at every offset mod 4, long enough to be chunked
+func multibyteItem(r *vh.Rng, k int) *Item {
+	mk := func(prefix int, n int) *Item {
+		var sb strings.Builder
+		sb.WriteString(strings.Repeat("a", prefix))
+		for sb.Len() < n {
+			sb.WriteString(runes[r.Intn(len(runes))])
+		}
+		return &Item{K: KStr, S: []byte(sb.String())}
+	}
+	switch k % 3 {
+	case 0:
+		return mk(k%8, 12+r.Intn(40))
+	case 1:
+		s := strings.Repeat("a", k%4) + strings.Repeat([]string{"\u00e9", "\u20ac", "\U0001F600"}[(k/3)%3], 6+r.Intn(10))
+		return &Item{K: KStr, S: []byte(s)}
+	}
+	return &Item{K: KArr, L: []*Item{mk(k%4, 20), mk((k+1)%4, 33), {K: KMap, M: [][2]*Item{{mk((k+2)%4, 17), mk((k+3)%4, 4200)}}}}}
+}
+
+func utf8Item(it *Item) bool {
+	switch it.K {
+	case KStr:
+		return utf8.Valid(it.S)
+	case KArr:
+		for _, x := range it.L {
+			if !utf8Item(x) {
+				return false
+			}
+		}
+	case KMap:
+		for _, kv := range it.M {
+			if !utf8Item(kv[0]) || !utf8Item(kv[1]) {
+				return false
+			}
+		}
+	case KTag:
+		return utf8Item(it.V)
+	}
+	return true
 }
 
 func kindName(it *Item) string {
@@ -798,7 +849,20 @@ func taggedRandStream(c *ctx, n int) {
 		}
 		return refHead(0, uint64(v), anyWidth(r, uint64(v), true))
 	}
-	for i := 0; i < n; i++ {
+	// deterministic part (quick tier too): 54..63-bit mantissas with exponents -22..22, where a
+	// float multiply / divide by a power of ten rounds twice
+	type em struct {
+		tag       byte
+		exp, mant int64
+	}
+	var fixed []em
+	for e := int64(-22); e <= 22; e++ {
+		for _, m := range []int64{1<<53 + 1, 1<<54 + 3, -(1<<57 + 5), 1<<60 + 7, 1<<63 - 1, int64(r.U64()>>1) | 1<<62 | 1} {
+			fixed = append(fixed, em{4, e, m})
+		}
+		fixed = append(fixed, em{5, e, 1<<63 - 1}, em{5, e - 1060, 1<<62 + 1})
+	}
+	for i := 0; i < n+len(fixed); i++ {
 		tag := byte(4 + r.Intn(2))
 		var exp int64
 		if tag == 4 {
@@ -815,6 +879,9 @@ func taggedRandStream(c *ctx, n int) {
 		mant := int64(randU64(r))
 		if r.Chance(1, 3) {
 			mant = int64(r.Intn(2000)) - 1000
+		}
+		if i < len(fixed) {
+			tag, exp, mant = fixed[i].tag, fixed[i].exp, fixed[i].mant
 		}
 		b := append([]byte{0xc0 | tag, 0x82}, intHead(exp)...)
 		b = append(b, intHead(mant)...)
